@@ -408,8 +408,15 @@ be_filter_process_output(struct bufferevent_filtered *bevf,
 	evbuffer_cb_set_flags(bufev->output,bevf->outbuf_cb,
 	    EVBUFFER_CB_ENABLED);
 
-	if (*processed_out)
-		BEV_RESET_GENERIC_WRITE_TIMEOUT(bufev);
+	if (*processed_out) {
+		/* progress restarts the write timeout; with nothing left to
+		 * write there is nothing to time out */
+		if (evbuffer_get_length(bufev->output) &&
+		    (bufev->enabled & EV_WRITE))
+			BEV_RESET_GENERIC_WRITE_TIMEOUT(bufev);
+		else
+			BEV_DEL_GENERIC_WRITE_TIMEOUT(bufev);
+	}
 
 	return res;
 }
